@@ -691,3 +691,23 @@ func runBigBatch(n int) (*ScenarioRun, int) {
 	}
 	return run, max
 }
+
+// genWritesForEvents: genWrites plus metadata writes whose metadata is empty (they carry no tag; only C16's oracle, which
+// matches events to entries by content, can use them).
+func genWritesForEvents(r *vc.Rand) *Scenario {
+	sc := genWrites(r)
+	last := &sc.Phases[len(sc.Phases)-1]
+	for c := range last.Clients {
+		if r.Chance(1, 2) {
+			op := Op{Kind: "savemeta", Tag: "", TargetType: "ACCOUNT", TargetID: vc.Pick(r, accts), Meta: map[string]string{}}
+			if r.Bool() {
+				op.TargetType, op.TargetID = "TRANSACTION", fmt.Sprint(r.Intn(2))
+			}
+			pos := r.Intn(len(last.Clients[c].Ops) + 1)
+			ops := append([]Op{}, last.Clients[c].Ops[:pos]...)
+			ops = append(ops, op)
+			last.Clients[c].Ops = append(ops, last.Clients[c].Ops[pos:]...)
+		}
+	}
+	return sc
+}
